@@ -34,21 +34,17 @@ Inductive instr :=
        nothing more, the input is still read to its end, then the exception is
        thrown (this is what the builtin `each` does as well). *)
 | IThrow (tag : N)                (* fail <tag> *)
-| IOnly (join : bool) (b : band).
+| IOnly (b : band).
     (* only-values (b = V) / only-bytes (b = B), builtin_fn_io.go: forward band b,
-       discard the other band in a helper goroutine.  [join = true] is the code
-       at HEAD: the builtin joins the helper before it returns, ALSO after a
-       failed write — the helper ends only when the other band is at its end, so
-       the stage keeps waiting on that band alone (and no longer reads band b).
-       [join = false] is the repaired behaviour (checks/C18.fixes): after a
-       failed write the builtin returns at once. *)
+       discard the other band in a helper goroutine; the builtin ends when both
+       bands are at their end, or at once when a write reports reader-gone
+       (since /repo f37fd5c it no longer joins the helper on that path). *)
 
 Inductive lstate :=
 | LRun (code : list instr)
 | LDrain (f : filt) (t : option (N * N)) (pending : option (band * N))
          (broken : option exn) (rest : list instr)
-| LOnly (join : bool) (b : band) (pending : option N) (rest : list instr)
-| LJoin (b : band) (rest : list instr)    (* reader gone; waiting for the end of band [other b] *)
+| LOnly (b : band) (pending : option N) (rest : list instr)
 | LExit (e : option exn).
 
 Definition want (l : lstate) : action :=
@@ -58,10 +54,9 @@ Definition want (l : lstate) : action :=
   | LRun (IRecv1 b :: _) => WRecv (Only b)
   | LRun (IDrain _ _ :: _) => WRecv Any
   | LRun (IThrow t :: _) => WExit (Some (Fail t))
-  | LRun (IOnly _ _ :: _) => WRecv Any
-  | LOnly _ b (Some x) _ => WSend b x
-  | LOnly _ _ None _ => WRecv Any
-  | LJoin b _ => WRecv (Only (other b))
+  | LRun (IOnly _ :: _) => WRecv Any
+  | LOnly b (Some x) _ => WSend b x
+  | LOnly _ None _ => WRecv Any
   | LDrain _ _ (Some (b, x)) _ _ => WSend b x
   | LDrain _ _ None _ _ => WRecv Any
   | LExit e => WExit e
@@ -92,23 +87,22 @@ Definition drain_cont (f : filt) (t : option (N * N)) (broken : option exn)
   end.
 
 (* the band filter is waiting for input and gets [r] *)
-Definition only_cont (j : bool) (b : band) (rest : list instr) (r : result) : lstate :=
+Definition only_cont (b : band) (rest : list instr) (r : result) : lstate :=
   match r with
-  | RItem c x => if band_eqb c b then LOnly j b (Some x) rest else LOnly j b None rest
+  | RItem c x => if band_eqb c b then LOnly b (Some x) rest else LOnly b None rest
   | REof => LRun rest
-  | _ => LOnly j b None rest
+  | _ => LOnly b None rest
   end.
 
 Definition cont (l : lstate) (r : result) : lstate :=
   match l with
-  | LRun (IOnly j b :: rest) => only_cont j b rest r
-  | LOnly j b (Some _) rest =>
+  | LRun (IOnly b :: rest) => only_cont b rest r
+  | LOnly b (Some _) rest =>
     match r with
-    | RGone => if j then LJoin b rest else LExit (Some ReaderGone)
-    | _ => LOnly j b None rest
+    | RGone => LExit (Some ReaderGone)
+    | _ => LOnly b None rest
     end
-  | LOnly j b None rest => only_cont j b rest r
-  | LJoin b rest => match r with REof => LExit (Some ReaderGone) | _ => LJoin b rest end
+  | LOnly b None rest => only_cont b rest r
   | LRun (ISend _ _ :: rest) =>
     match r with RGone => LExit (Some ReaderGone) | _ => LRun rest end
   | LRun (IRecv1 _ :: rest) => LRun rest
@@ -160,7 +154,7 @@ Record case := mkCase {
    stages (program, empty history, exit, position in a PipelineError) and judges
    the collapsed pipeline: its neighbours then face each other directly. *)
 Definition is_filter (prog : list instr) : bool :=
-  match prog with [IOnly _ _] => true | _ => false end.
+  match prog with [IOnly _] => true | _ => false end.
 
 Fixpoint drop_mask {A} (m : list bool) (l : list A) : list A :=
   match m, l with
@@ -183,7 +177,7 @@ Fixpoint collapsible_from (prev : option (list instr)) (ps : pipeline) (es : lis
   | [], _ => true
   | prog :: ps', e :: es' =>
     match prog with
-    | [IOnly _ b] =>
+    | [IOnly b] =>
       match prev with
       | Some w => negb (is_filter w) && writes_only b w
       | None => false
@@ -216,7 +210,7 @@ Definition judge1 (c : case) : N :=
    parse): 3-byte big-endian words, decoded here.
      case  := n prog^n hist^n exit^n final
      prog  := len instr^len        hist := len ev^len
-     instr := 0 x | 1 x (send V/B) | 2 | 3 (recv1 V/B) | 4 fk m r ht tx tag (drain) | 5 tag | 6 join band
+     instr := 0 x | 1 x (send V/B) | 2 | 3 (recv1 V/B) | 4 fk m r ht tx tag (drain) | 5 tag | 6 0 band
      ev    := 0 x | 1 x (sent) | 2 x | 3 x (gone) | 4 x | 5 x (got) | 6 | 7 | 8 (eof Any/V/B)
      exit  := 0 | 1 | 2 tag        final := 0 | 1 exit | 2 len exit^len *)
 Fixpoint words (b : bytes) : list N :=
@@ -257,8 +251,7 @@ Definition p_instr : P instr := fun ws =>
     let t := match ht with 0%N => None | _ => Some (tx, tag) end in
     Some (IDrain f t, r)
   | 5%N :: tag :: r => Some (IThrow tag, r)
-  | 6%N :: j :: b :: r =>
-    Some (IOnly (negb (N.eqb j 0)) (match b with 0%N => V | _ => B end), r)
+  | 6%N :: 0%N :: b :: r => Some (IOnly (match b with 0%N => V | _ => B end), r)
   | _ => None
   end.
 
@@ -334,26 +327,17 @@ Definition sends_on (b : band) (i : instr) : bool :=
   match i with
   | ISend b' _ => band_eqb b' b
   | IDrain _ _ => true
-  | IOnly _ b' => band_eqb b' b
+  | IOnly b' => band_eqb b' b
   | _ => false
   end.
-(* may instruction i wait on band b alone?  (a joining filter for band b' does,
-   on the other band, once its reader is gone) *)
+(* may instruction i wait on band b alone? *)
 Definition recv1_on (b : band) (i : instr) : bool :=
-  match i with
-  | IRecv1 b' => band_eqb b' b
-  | IOnly true b' => band_eqb (other b') b
-  | _ => false
-  end.
+  match i with IRecv1 b' => band_eqb b' b | _ => false end.
 
 (* no single-band read at all *)
 Definition no_recv1_instr (i : instr) : bool :=
   match i with IRecv1 _ => false | _ => true end.
 Definition no_recv1 (p : pipeline) : bool := forallb (forallb no_recv1_instr) p.
-(* … and no filter that joins its helper after a failed write *)
-Definition plain_instr (i : instr) : bool :=
-  match i with IRecv1 _ | IOnly true _ => false | _ => true end.
-Definition plain (p : pipeline) : bool := forallb (forallb plain_instr) p.
 
 (* a reader that waits on band b alone has a writer that never writes on the
    other band *)
